@@ -106,15 +106,19 @@ func (c *vconn) Write(p []byte) (int, error) {
 		}
 	}
 	c.writes = append(c.writes, vconnWrite{append([]byte{}, p...), false})
-	if c.signalLocked {
-		c.signalLocked = false
-		defer c.signal()
-	}
+	sig := c.signalLocked
+	c.signalLocked = false
 	if c.yieldAfterWrite {
 		c.wire = append(c.wire, p...)
 		verifUnlock()
+		if sig {
+			c.signal()
+		}
 		verifYield()
 		return len(p), nil
+	}
+	if sig {
+		defer c.signal()
 	}
 	if c.split && len(p) > 1 {
 		h := len(p) / 2
